@@ -77,6 +77,15 @@ var c11 = gen.Register(&gen.Check[caseC11]{
 		if gen.Chance(t, "exceptional", 1, 16) {
 			return caseC11{U: fv(rapid.SampledFrom(ref.ExceptionalU()).Draw(t, "exc"))}
 		}
+		if gen.Chance(t, "deep-targeted", 1, 40) {
+			// drive ANY polynomial intermediate of the straight-line program (steps 1-17, 19) to a boundary pattern, in canonical or
+			// Montgomery form, by root finding (see solved_test.go)
+			step := rapid.IntRange(0, 18).Draw(t, "step")
+			tau := FVGen().Draw(t, "tau").Value()
+			if u := solveStep(step, tau, gen.U64(t, "salt")); u != nil {
+				return caseC11{U: fv(u), Target: true}
+			}
+		}
 		if gen.Chance(t, "targeted", 1, 3) {
 			// drive an intermediate value of the map (tv1 = Z u^2, tv2 = tv1^2 + tv1: the operand of the
 			// exceptional-case zero test) to a boundary pattern, in canonical or Montgomery form, by solving for u
@@ -94,6 +103,11 @@ var c11 = gen.Register(&gen.Check[caseC11]{
 		}
 		for _, u := range []*big.Int{bigOne, big.NewInt(2), pm1, new(big.Int).Sub(ref.P, big.NewInt(2))} {
 			out = append(out, caseC11{U: fv(u)})
+		}
+		for i, e := range solvedFixed() {
+			if e.Kind == "sswu" && i%gen.DictStride() == 0 {
+				out = append(out, caseC11{U: FV{Hex: e.Root}, Target: true})
+			}
 		}
 		return out
 	},
@@ -164,6 +178,12 @@ var c11iso = gen.Register(&gen.Check[caseC11iso]{
 	Weight: 0.5,
 	Gen: func(t *rapid.T) caseC11iso {
 		x := gen.Int(ref.P).Draw(t, "x")
+		if gen.Chance(t, "deep-targeted", 1, 40) {
+			// any of the four polynomials of the rational map driven to a boundary pattern
+			if r := solveIso(rapid.IntRange(0, 3).Draw(t, "poly"), FVGen().Draw(t, "tau").Value(), gen.U64(t, "salt")); r != nil {
+				return caseC11iso{X: gen.H(r), Odd: rapid.Bool().Draw(t, "odd")}
+			}
+		}
 		if gen.Chance(t, "targeted", 1, 3) {
 			// the isogeny tests 1/x_den and y_den for zero, with x_den = (x' - xT)^2 and y_den = (x' - xT)^3:
 			// choose x' so that one of them takes a boundary pattern
@@ -192,6 +212,11 @@ var c11iso = gen.Register(&gen.Check[caseC11iso]{
 		}
 		for _, v := range gen.DictFixed(ref.P, 4*gen.DictStride()) {
 			out = append(out, caseC11iso{X: gen.H(v), Odd: v.Bit(0) == 1})
+		}
+		for i, e := range solvedFixed() {
+			if e.Kind == "iso" {
+				out = append(out, caseC11iso{X: e.Root, Odd: i%2 == 1})
+			}
 		}
 		return out
 	},
